@@ -906,6 +906,30 @@ class SymNP:
     def vdot(self, a, b):
         return self.einsum("i,i->", self.conj(self.ravel(a)), self.ravel(b))
 
+    def callee_rowsum(self, a, b):
+        return self.sum(2 * a, axis=1) + b
+
+    def callee_sq_and_neg(self, a):
+        return a * a + 1, self.transpose(self.negative(a))
+
+    def csr_matmul(self, shape, elem_values, elem_col_indices, row_starts, x):
+        """y[i, ...] = sum_{k in [row_starts[i], row_starts[i+1])} elem_values[k] * x[elem_col_indices[k], ...]
+        (the documented meaning of a CSR matrix; bounds are data)"""
+        rdt = np.result_type(elem_values.dtype, x.dtype)
+        oshape = (shape[0],) + tuple(x.shape[1:])
+        alg = self.alg
+
+        def at(idx):
+            i = idx[0]
+            lo, hi = row_starts.at((i,)), row_starts.at((i + 1,))
+
+            def body(rs):
+                k, = rs
+                col = elem_col_indices.at((k,))
+                return alg.op("mul", alg.cast(rdt, elem_values.at((k,))), alg.cast(rdt, x.at((col, *idx[1:]))))
+            return alg.reduce("sum", [(lo, hi)], body)
+        return LArr(self, oshape, rdt, at)
+
     # -- indexing -----------------------------------------------------------
     def _getitem(self, a, key):
         if not isinstance(key, tuple):
